@@ -60,7 +60,9 @@ class ProgGen:
     def __init__(self, rng):
         self.rng = rng
         self.nid = 0
-        self.objs = []  # (obj id, node)
+        self.objs = []  # obj ids
+        self.owner = {}  # obj id -> (node the object presumably belongs to, made through the unbound classes?)
+        self.app = "L"
         self.msgs = 0
         self.nodes = ["A"]
         self.ndef = 0
@@ -111,7 +113,7 @@ class ProgGen:
         r = rng.random()
         sid = self.sid()
         if r < 0.22 or not self.objs:
-            node = rng.choice(self.nodes + (["app"] if rng.random() < 0.3 else []))
+            node = "app" if rng.random() < 0.3 else rng.choice(self.nodes)
             kind = rng.choice(["q", "q", "q", "u", "m", "uc", "exc"])
             s = {"id": sid, "k": "make", "node": node, "kind": kind}
             un = node if node != "app" else "A"
@@ -126,6 +128,8 @@ class ProgGen:
             else:
                 s.update(exc=self.exc())
             self.objs.append(sid)
+            if kind in ("q", "u", "m"):
+                self.owner[sid] = (self.app if node == "app" else node, node == "app")
             return s
         if r < 0.42:
             how = rng.choice(["pickle", "pickle", "pickle", "copy", "deepcopy", "tuple"])
@@ -138,7 +142,9 @@ class ProgGen:
             return {"id": sid, "k": "deliver", "which": rng.getrandbits(16), "keep": rng.random() < 0.25,
                     "newest": rng.random() < 0.3}
         if r < 0.68:
-            return {"id": sid, "k": "app_switch", "node": rng.choice(self.nodes + ["L"])}
+            node = rng.choice(self.nodes + ["L"])
+            self.app = node
+            return {"id": sid, "k": "app_switch", "node": node}
         if r < 0.74 and "B" not in self.nodes:
             self.nodes.append("B")
             return {"id": sid, "k": "copy_registry"}
@@ -162,6 +168,15 @@ class ProgGen:
             return s
         if r < 0.93 and len(self.objs) >= 2:
             a, b = rng.sample(self.objs, 2)
+            # prefer operands of different registries, and pairs that were both made through the unbound
+            # pint.Quantity / pint.Unit under different application registries
+            own = sorted(self.owner)
+            pairs = [(x, y) for x in own for y in own if x < y and self.owner[x][0] != self.owner[y][0]]
+            both_app = [(x, y) for x, y in pairs if self.owner[x][1] and self.owner[y][1]]
+            if both_app and rng.random() < 0.5:
+                a, b = rng.choice(both_app)
+            elif pairs and rng.random() < 0.7:
+                a, b = rng.choice(pairs)
             return {"id": sid, "k": "cross", "a": a, "b": b, "op": rng.choice(["add", "sub", "mul", "div", "lt", "ge", "le", "gt"])}
         if r < 0.97:
             return {"id": sid, "k": "touch_lazy", "how": rng.choice(["getattr", "call", "item", "setattr", "quantity"])}
